@@ -304,6 +304,7 @@ def run(chk, R, tier, seed):
         chk.require("zero-corner-tie|%s|F" % mode)
         chk.require("zero-corner-tie|%s|D" % mode)
     chk.require("round|tie")
+    chk.require("same quantity and quantum under a sequence of default modes")
     chk.require("round|digits omitted")
     chk.require("reject|othertype")
     chk.require("reject|zero amount")
